@@ -89,6 +89,13 @@ def netOp (n : NSt) (w : List String) : NSt × String :=
     match epId e with
     | none => (n, "bad-op no-ep")
     | some eid => (n, if (ownerOf n.s eid).isSome then "still-accepting" else "gone")
+  | ["connectout", sid, _, c, t] =>
+    if (lookupN n.s.socks (num sid)).isNone then (n, "bad-op no-sock") else
+    let (s', ok) := connectOut n.s (num sid) (num c) (hsBytes t)
+    let n' : NSt := { n with s := s' }
+    let n' := if ok then { n' with rr := insertN n'.rr (num sid) (((lookupN n'.rr (num sid)).getD []) ++ [num c]) } else n'
+    -- (the library sends its own greeting and READY before it judges the peer's: the raw side sees both)
+    (n', (if ok then "ok" else "err Other") ++ " raw=hs-ok")
   | ["rawconn", c, e] =>
     match epId e with
     | none => (n, "bad-op no-ep")
